@@ -59,7 +59,7 @@ func c08Compare(sh *c08Shared, c *kit.Ctx, r *kit.Rand, caseTag string) {
 	m := s.m
 	addrs := m.addresses()
 	addr := addrs[r.Intn(len(addrs))]
-	kind := r.Intn(7)
+	kind := r.Pick([]int{2, 1, 2, 2, 1, 4, 1})
 	var idx basics.CreatableIndex
 	var creatables []basics.CreatableIndex
 	for k := range m.creators {
@@ -384,4 +384,57 @@ func TestVerifC08(t *testing.T) {
 	c.Require("lookups.served_db-round", 20)
 	c.Require("hook.ledger.au.lookupWithoutRewards.beforeDB", 20)
 	c.Require("schedule.flush", 3)
+}
+
+// TestVerifC08Sequential asks the same questions from ONE goroutine, a PRNG-chosen number of
+// times (often zero) between every block and every schedule action. Concurrent readers query so
+// densely that every cache entry is refreshed between any two ledger events; stale-cache defects that
+// need "a historical lookup before a commit, NO lookup between that commit and the next block, then a
+// later lookup" only show under sparse, irregular querying.
+func TestVerifC08Sequential(t *testing.T) {
+	c := kit.Start(t, "C08", "sequential")
+	defer c.Finish()
+	c.Rule("same histories, configurations, schedule actions and oracle as part lookups, box-heavy profile, but queried sparsely from one goroutine: a PRNG-chosen number (0..40, often 0) of random (round,key) lookups after each block and after each schedule action, biased toward kv keys and recently deleted keys; distinct = distinct (latest−dbRound, queried offset, age of last change) shapes")
+	nh := c.N(6, 60)
+	blocks := c.N(120, 300)
+	for h := 0; h < nh && c.Violations() < 5; h++ {
+		r := c.Rand(88, uint64(h))
+		cfg := hlRandomConfig(r)
+		cfg.Profile = "apps"
+		verifhook.Reset()
+		s := hlNewSim(t, c, r, cfg)
+		sh := &c08Shared{s: s}
+		ask := func() {
+			n := 0
+			switch r.Intn(4) {
+			case 0:
+				n = 0
+			case 1:
+				n = r.Range(1, 6)
+			default:
+				n = r.Range(5, 40)
+			}
+			for i := 0; i < n; i++ {
+				c08Compare(sh, c, r, fmt.Sprintf("history %d sequential", h))
+			}
+		}
+		for b := 0; b < blocks; b++ {
+			s.step()
+			sh.latest.Store(uint64(s.m.latest))
+			ask()
+			act := s.scheduleAction()
+			c.Count("schedule."+act, 1)
+			ask()
+		}
+		for k, v := range s.stats {
+			c.Count("gen."+k, v)
+		}
+		if h < 2 {
+			c.Sample(map[string]any{"history": h, "config": cfg.String(), "blocks": blocks, "trace_tail": s.traceTail(8)})
+		}
+		s.close()
+	}
+	c.Require("lookups.kv_present", 50)
+	c.Require("lookups.kv_absent", 50)
+	c.Require("schedule.flush", 5)
 }
